@@ -20,7 +20,7 @@ from overlay import HARNESS_DIR, MOUNTS
 class Harness:
     def __init__(self, name, file, props, tier="quick", timeout=600, mem=16, expect="pass",
                  desc="", functions="", bound="", stubs="", assumes="", stubbing=False,
-                 shape=None, covers_optional=(), replay=None, flavor="debug"):
+                 shape=None, covers_optional=(), replay=None, flavor="debug", attempt=False):
         self.name = name
         self.file = file
         self.props = props
@@ -43,6 +43,11 @@ class Harness:
         self.replay = replay or ("native" if not stubbing else "none")
         # "debug": dev profile with debug assertions (default); "nodebug": debug-assertions = false
         self.flavor = flavor
+        # attempt: a harness that is known not to close (or has never been seen to close) within
+        # its cap.  It is run, and a pass or a reproduced counterexample counts like any other;
+        # a timeout / out-of-memory is reported as "ATTEMPT did not close" and does not make the
+        # check inconclusive.  Nothing is claimed from an attempt that did not close.
+        self.attempt = attempt
 
     def descriptor(self):
         d = {
@@ -63,6 +68,8 @@ class Harness:
             d["profile"] = "debug-assertions = false (release-like; redb's debug-only bookkeeping compiled out)"
         if self.expect == "fail":
             d["role"] = "negative twin: must FAIL (reachability / vacuity witness)"
+        if self.attempt:
+            d["role"] = "attempt: not part of the claim unless it closes"
         return d
 
 
@@ -107,7 +114,8 @@ def parse_annotations(hf):
                     desc=cur["desc"], functions=cur["functions"], bound=cur["bound"],
                     stubs=cur["stubs"], assumes=cur["assumes"],
                     covers_optional=tuple(x for x in kv.get("optcover", "").split("|") if x),
-                    replay=kv.get("replay"), flavor=kv.get("flavor", "debug")))
+                    replay=kv.get("replay"), flavor=kv.get("flavor", "debug"),
+                    attempt=kv.get("attempt", "0") == "1"))
                 cur = keep
                 if keep is not None:
                     keep["_used"] = True
@@ -201,7 +209,7 @@ def gen_buddy():
             bound="region length n=%d, region capacity %d (orders 0..=%d); every bitmap word, the order and "
                   "the block index symbolic" % (n, c, c.bit_length() - 1),
             assumes="pre-state satisfies R (DESIGN.md C14)" if k != "new" else "",
-            shape={"n": n, "cap": c}))
+            shape={"n": n, "cap": c}, attempt=(k in HEAVY or c > 16)))
     return "\n".join(lines), recs
 
 
